@@ -1,6 +1,7 @@
 package sym
 
 import (
+	"fmt"
 	"go/types"
 
 	"verif/engine/smt"
@@ -87,14 +88,59 @@ func (e *Engine) newFrame(st *State, kind string, srcArr, srcOff, srcLen *smt.Te
 	}
 	bound := e.boundOf(kind, srcLen)
 	ub := e.upperBound(st, bound)
-	fr := c.Var("frame", smt.Arr(8))
-	flen := c.Var("framelen", smt.BV(64))
+	// fresh frame variables are memoised per instruction execution so that a re-execution after a fork
+	// sees the same terms
+	type frameVars struct{ fr, flen *smt.Term }
+	mkey := fmt.Sprintf("frame#%d", len(e.frames(st)))
+	var fv frameVars
+	if m, ok := st.memo[mkey]; ok {
+		fv = m.(frameVars)
+	} else {
+		fv = frameVars{fr: c.Var("frame", smt.Arr(8)), flen: c.Var("framelen", smt.BV(64))}
+		if st.memo == nil {
+			st.memo = map[string]interface{}{}
+		}
+		st.memo[mkey] = fv
+	}
+	fr, flen := fv.fr, fv.flen
+	e.assume(st, c.And(c.Uge(flen, e.k64(1)), c.Ule(flen, bound)))
+	if e.Params["FRAMELEN_CONCRETE"] == 2 && srcLen.IsConst() {
+		// representative frame lengths around the raw length n and the (scaled) write buffer of 8 bytes:
+		// 1, n-1, n, n+1, 8, 9 and the bound
+		n := srcLen.Val
+		cands := []uint64{1, n, n + 1, 8, 9, ub}
+		if n > 1 {
+			cands = append(cands, n-1)
+		}
+		var alts []*smt.Term
+		seen := map[uint64]bool{}
+		var vals []uint64
+		for _, k := range cands {
+			if k >= 1 && k <= ub && !seen[k] {
+				seen[k] = true
+				vals = append(vals, k)
+				alts = append(alts, c.Eq(flen, e.k64(k)))
+			}
+		}
+		e.assume(st, c.Or(alts...))
+		for i, k := range vals {
+			if i == len(vals)-1 || e.branch(st, alts[i]) {
+				flen = e.k64(k)
+				ub = k
+				break
+			}
+		}
+	} else if e.Params["FRAMELEN_CONCRETE"] == 1 {
+		// one path per possible frame length (keeps file offsets concrete); still every length 1..Bound
+		k := e.concretise(st, flen, int(ub)+1)
+		flen = e.k64(uint64(k))
+		ub = uint64(k)
+	}
 	ent := TraceEnt{Kind: "bytes", Name: fr.Name, N: int(ub)}
 	for i := uint64(0); i < ub; i++ {
 		ent.Terms = append(ent.Terms, c.Select(fr, e.k64(i)))
 	}
-	st.trace = append(st.trace, ent, TraceEnt{Kind: "int", Name: flen.Name, Terms: []*smt.Term{flen}})
-	e.assume(st, c.And(c.Uge(flen, e.k64(1)), c.Ule(flen, bound)))
+	st.trace = append(st.trace, ent, TraceEnt{Kind: "int", Name: fv.flen.Name, Terms: []*smt.Term{fv.flen}})
 	nf := frameEnt{kind: kind, fr: fr, flen: flen, src: src, slen: srcLen, ub: ub, sub: sub}
 	// injectivity: a frame shared with an earlier entry means the sources were equal (handled above)
 	for _, f := range e.frames(st) {
@@ -341,6 +387,11 @@ func registerCompression(e *Engine) {
 		}
 		return TupleV{m, IfaceV{}}, true
 	})
+	// the same contract under zz_verif names: source-level redirection used when a counterexample must be
+	// replayable natively against the contract instead of the real library (C01)
+	e.natives[VPkg+".LZ4CompressBlockBound"] = e.natives[pl+"CompressBlockBound"]
+	e.natives[VPkg+".LZ4CompressBlockHC"] = e.natives[pl+"CompressBlockHC"]
+	e.natives[VPkg+".LZ4UncompressBlock"] = e.natives[pl+"UncompressBlock"]
 	kz := "github.com/klauspost/compress/zstd."
 	mkObj := func(tag string) NativeFn {
 		return func(e *Engine, st *State, cc *CallCtx) (Value, bool) {
@@ -388,6 +439,8 @@ func registerCompression(e *Engine) {
 		f := e.newFrame(st, "zstd", sa, so, sl)
 		return appendTo(e, st, dst, f.fr, f.flen), true
 	})
+	e.natives[VPkg+".ZstdEncodeAll"] = e.natives["(*"+kz+"Encoder).EncodeAll"]
+	defer func() { e.natives[VPkg+".ZstdDecodeAll"] = e.natives["(*"+kz+"Decoder).DecodeAll"] }()
 	e.reg("(*"+kz+"Decoder).DecodeAll", func(e *Engine, st *State, cc *CallCtx) (Value, bool) {
 		if p, ok := cc.Args[0].(Ptr); !ok || p.IsNil() {
 			e.runtimePanic(st, "nil pointer dereference (DecodeAll on nil decoder)")
